@@ -17,7 +17,7 @@ BOUNDS = {
     "quick": "induction: period 1..3 x numrec 0..3 with Nsteps and step unbounded (<= 1e9); bounded runs: Nsteps 1..6, period 1..3 steps, numrec 0..3 (all 72 triples via solver-enumerated forks), sparse+dense, with/without particle variable, forward+reversed; positions/velocity symbolic",
     "thorough": "Nsteps 1..12, period 1..5, numrec 0..5 (360 triples), both layouts, both directions",
 }
-ASSUMES = ["output period is a whole number of time steps; duration a whole number of steps", "one particle released at start (values symbolic), constant symbolic velocity, no deaths"]
+ASSUMES = ["output period is a whole number of time steps; duration a whole number of steps", "one particle released at a symbolic step 0..Nsteps-1 (values symbolic; records before the release are empty), constant symbolic velocity, no deaths", "skip_initial symbolic (the initial record is then neither written nor counted)"]
 OUTSIDE = "warm start (C08); NetCDF library internals (stub validated against real netCDF4 by the replays)"
 DT = 600
 
@@ -184,19 +184,24 @@ def run(W, p):
     sgn = -1 if rev else 1
     x0 = W.real("x0", 5, 15)
     u = W.real("u", -W.frac(1, 100), W.frac(1, 100))
+    # the particle may be released later than the start (records before that are empty but must still be written),
+    # and the initial record may be switched off
+    r0 = W.idx(W.int("release_step", 0, N - 1)) if p.get("late", True) else 0
+    skip = W.truth(W.bool("skip_initial")) if p.get("skip", True) else False
     tmp = W.scratch()
-    W.table(tmp / "r.rls", ["release_time", "X", "Y", "Z", "w0"], [[W.dt(T0), x0, 10, 5, W.real("w0")]])
+    W.table(tmp / "r.rls", ["release_time", "X", "Y", "Z", "w0"], [[W.dt(T0 + sgn * r0 * DT), x0, 10, 5, W.real("w0")]])
     ivars = dict(pid=ovar("i4"), X=ovar("f8"))
     pvars = dict(w0=ovar("f8")) if p["pv"] else None
     cfg = base_config(W, start=T0, stop=T0 + sgn * N * DT, dt=DT, rev=rev, release_file=tmp / "r.rls", u=u,
                       state=dict(particle_variables=dict(w0=float)),
-                      output=dict(filename=str(tmp / "out.nc"), output_period=P * DT, instance_variables=ivars, particle_variables=pvars, layout=layout, numrec=R))
+                      output=dict(filename=str(tmp / "out.nc"), output_period=P * DT, instance_variables=ivars, particle_variables=pvars, layout=layout, numrec=R, skip_initial=skip))
     run_main(W, cfg)
     # ---- oracle
-    steps = [k * P for k in range(N) if k * P < N]
+    steps = [k * P for k in range(N) if k * P < N and not (skip and k == 0)]
     nrec = len(steps)
-    if R == 0:
-        names = ["out.nc"]
+    info = dict(N=N, P=P, R=R, release_step=r0, skip_initial=skip)
+    if R == 0 or nrec == 0:
+        names = ["out.nc"] if R == 0 else ["out_000.nc"]
         split = [nrec]
     else:
         nfiles = -(-nrec // R)
@@ -204,15 +209,16 @@ def run(W, p):
         split = [min(R, nrec - i * R) for i in range(nfiles)]
     got_files = sorted(f for f in W.nc_files() if f.endswith(".nc"))
     exp_files = sorted(str(tmp / n) for n in names)
-    W.prove(got_files == exp_files, "file-split", dict(N=N, P=P, R=R, got=[f.split("/")[-1] for f in got_files], expected=names))
+    W.prove(got_files == exp_files, "file-split", dict(info, got=[f.split("/")[-1] for f in got_files], expected=names))
     if got_files != exp_files:
         return (N, P, R, "files")
-    W.prove(all(W.nc_is_closed(f) for f in exp_files), "all-closed", dict(N=N, P=P, R=R))
+    W.prove(all(W.nc_is_closed(f) for f in exp_files), "all-closed", info)
     ref = T0 + sgn * N * DT if rev else T0
-    times, xs = [], []
+    times, recs = [], []
     ok_split = True
     okpv = True
     pvconds = []
+    k = 0
     for n, cnt in zip(names, split):
         d = W.nc_read(tmp / n)
         t = d["vars"]["time"]
@@ -224,28 +230,41 @@ def run(W, p):
             off = 0
             for r in range(len(t)):
                 c = pc[r]
-                xs.append(d["vars"]["X"][off] if not W.is_fill(c) and int(c) == 1 and len(d["vars"]["X"]) > off else None)
-                off += 0 if W.is_fill(c) else int(c)
+                if W.is_fill(c):
+                    recs.append(None)
+                    continue
+                recs.append(list(d["vars"]["X"][off:off + int(c)]))
+                off += int(c)
         else:
             for r in range(len(t)):
                 row = d["vars"]["X"][r] if r < len(d["vars"]["X"]) else []
-                xs.append(row[0] if len(row) >= 1 else None)
-        if p["pv"]:
+                recs.append([v for v in row if not W.is_fill(v)])
+        if p["pv"] and cnt:
+            # when the file was finished (at its last record) the particle variables of everybody released so far were written
+            last = steps[min(k + cnt, nrec) - 1]
             w = d["vars"].get("w0")
-            okpv = okpv and w is not None and len(w) == 1 and not W.is_fill(w[0])
-            if okpv:
+            want = 1 if r0 <= last else 0
+            okpv = okpv and w is not None and len(w) == want and not any(W.is_fill(x) for x in w)
+            if okpv and want:
                 pvconds.append(W.eq(w[0], W_var(W, "w0")))
-    W.prove(ok_split, "file-split", dict(N=N, P=P, R=R, note="records per file"))
+        k += cnt
+    W.prove(ok_split, "file-split", dict(info, note="records per file"))
     exp_t = [T0 + sgn * s * DT - ref for s in steps]
     if len(times) == nrec and not any(W.is_fill(a) for a in times):
-        W.prove(W.all([W.eq(a, b) for a, b in zip(times, exp_t)]), "record-times", dict(N=N, P=P, R=R))
+        W.prove(W.all([W.eq(a, b) for a, b in zip(times, exp_t)]), "record-times", info)
     else:
-        W.prove(False, "record-times", dict(N=N, P=P, R=R, got=len(times), expected=nrec))
-    if len(xs) == nrec:
-        W.prove(W.all([x is not None and not W.is_fill(x) and W.eq(x, x0 + u * W.frac(DT, 100) * s) for x, s in zip(xs, steps)]), "record-values", dict(N=N, P=P, R=R))
+        W.prove(False, "record-times", dict(info, got=len(times), expected=nrec))
+    if len(recs) == nrec:
+        conds = []
+        for rec, s_ in zip(recs, steps):
+            if rec is None or len(rec) != (1 if s_ >= r0 else 0):
+                conds.append(False)
+            elif rec:
+                conds.append(W.eq(rec[0], x0 + u * W.frac(DT, 100) * (s_ - r0)))
+        W.prove(W.all(conds) if all(c is not False for c in conds) else False, "record-values", info)
     if p["pv"]:
-        W.prove(okpv and W.truth(W.all(pvconds)) if not W.symbolic else (W.all(pvconds) if okpv else False), "particle-vars", dict(N=N, P=P, R=R))
-    return (N, P, R)
+        W.prove(okpv and W.truth(W.all(pvconds)) if not W.symbolic else (W.all(pvconds) if okpv else False), "particle-vars", info)
+    return (N, P, R, r0, skip)
 
 
 def W_var(W, name):
